@@ -275,6 +275,38 @@ def run(ctx):
     if nwb is None:
         ctx.anchor("U5-LOOPS", "SurfaceOwned::new_with")
 
+    # ---------------- U7 element-wise access to the backing data -------------------------------------------------
+    ctx.rule("U7-ELEMENTWISE", "the backing slice (data()/data_mut()) is only indexed element-wise, handed to get/get_mut/len/as_mut_ptr, or stored in a view/iterator struct", floor=7)
+    DATA_RX = r"^(Surface::data|SurfaceMut::data_mut)\((arg1|Surface::shape\(arg1\)|.*)\)$"
+    OK_CALLEES = r"(slice::<impl \[T\]>::(get|get_mut|len|as_mut_ptr|as_ptr|is_empty)|Surface::data|SurfaceMut::data_mut|Surface>::data|SurfaceMut>::data_mut)$"
+    n_uses = 0
+    for b in prog.bodies:
+        if not b.file.endswith("surface.rs"):
+            continue
+        if b.name in ("data", "data_mut"):
+            continue
+        for bb, t in b.calls():
+            if call_matches(t, OK_CALLEES):
+                for a in t["args"][:1]:
+                    if re.match(DATA_RX, expr(b, a)):
+                        n_uses += 1
+                        ctx.instance("U7-ELEMENTWISE", {"fn": b.path, "use": callee_name(t).split("::")[-1], "ok": True}, nontrivial=False)
+                continue
+            for a in t["args"]:
+                e = expr(b, a)
+                if re.match(DATA_RX, e) and not e.startswith("Surface::data(Surface::as_ref") :
+                    n_uses += 1
+                    ctx.instance("U7-ELEMENTWISE", {"fn": b.path, "use": callee_name(t), "ok": False})
+                    ctx.violation("U7-ELEMENTWISE", b.path, callee_name(t).split("::")[-1],
+                                  "the backing data slice is handed to %s: bulk/slice operations ignore the view's strides and window (only element-wise access through shape.offset is audited)" % callee_name(t),
+                                  sites=["%s:%d" % (b.file, t["line"])])
+        for bb, t in b.terms():
+            if t["k"] == "assert" and t["msg"]["kind"] == "BoundsCheck" and re.search(r"PtrMetadata\((Surface::data|SurfaceMut::data_mut)\(", expr(b, t["msg"]["len"])):
+                n_uses += 1
+                ctx.instance("U7-ELEMENTWISE", {"fn": b.path, "use": "index", "ok": True}, nontrivial=False)
+    if n_uses == 0:
+        ctx.anchor("U7-ELEMENTWISE", "data-uses")
+
     # ---------------- U6 iterator progress -------------------------------------------------------------------------
     ctx.rule("U6-PROGRESS", "SurfaceMutIter: index written only as index += n + 1 before producing an item; constructed with index 0", floor=2)
     it = prog.body("<surface::SurfaceMutIter<'a, T> as std::iter::Iterator>::nth")
